@@ -91,6 +91,10 @@ impl<'jbrd, 'frame, 'meta> JpegBitstreamReconstructor<'jbrd, 'frame, 'meta> {
         let com_data_start = header.app_data_len();
         let intermarker_data_start = com_data_start + header.com_data_len();
         let tail_data_start = intermarker_data_start + header.intermarker_data_len();
+        if data.len() < tail_data_start + header.tail_data_length as usize {
+            // The data section of the reconstruction box has not been fully received (or is too short).
+            return Err(Error::ReconstructionDataIncomplete);
+        }
 
         if frame.image_header().metadata.xyb_encoded {
             return Err(Error::IncompatibleFrame);
